@@ -1164,6 +1164,16 @@ impl<'a> Walker<'a> {
             }
             syn::Expr::Binary(b) => {
                 self.expr(&b.left, out);
+                // in a function that must not panic: a division or remainder whose divisor is not a non-zero literal (or a .max(1) /
+                // NonZero value) may divide by zero
+                if self.cfg.forbid_panic.contains(&self.f.key) && matches!(b.op, syn::BinOp::Div(_) | syn::BinOp::Rem(_) | syn::BinOp::DivAssign(_) | syn::BinOp::RemAssign(_)) {
+                    let rt = toks(&*b.right).replace(' ', "");
+                    let nonzero_lit = matches!(strip(&b.right), syn::Expr::Lit(l) if toks(l).trim_start_matches('0').trim_start_matches('_').chars().next().map(|c| c.is_ascii_digit() && c != '0').unwrap_or(false) || toks(l).contains(|c: char| ('1'..='9').contains(&c)));
+                    if !(nonzero_lit || rt.contains(".max(1)") || rt.contains("NonZero") || rt.contains(".get()")) {
+                        let p = self.ev("ev_forbidden_panic", vec![], b, line);
+                        out.push(Sk::If { cond: Cond::Nondet, then: vec![p], els: vec![], line });
+                    }
+                }
                 // short-circuit operators: the right operand is evaluated conditionally
                 if matches!(b.op, syn::BinOp::And(_) | syn::BinOp::Or(_)) {
                     let mut r = vec![];
@@ -1709,6 +1719,11 @@ impl<'a> Walker<'a> {
                 out.push(Sk::If { cond: Cond::Nondet, then: vec![pv], els: vec![], line });
             }
         }
+        // std::mem::forget(<bin lock guard>): the lock is then released by hand (force_unlock); a user callback that panics in
+        // between leaves it locked for ever (C18)
+        if (full == "std::mem::forget" || full == "mem::forget" || full == "forget") && args.first().map(|a| toks(*a).replace(' ', "").contains(".lock.lock()")).unwrap_or(false) {
+            out.push(Sk::Raw("assert(false);   // OBL:C18:a_bin_lock_is_released_by_its_guard_also_when_a_callback_panics".into()));
+        }
         match full.as_str() {
             "drop" => {
                 if let Some(syn::Expr::Path(ap)) = args.first().map(|a| strip(a)) {
@@ -1948,6 +1963,13 @@ impl<'a> Walker<'a> {
                 out.push(self.ev(if self.owned { "ev_free" } else { "ev_free_shared" }, vec![], m, line));
                 let t = rty.as_deref().and_then(|t| wrap_inner(t, "Shared").or_else(|| wrap_inner(t, "Atomic")));
                 return Self::vty(t);
+            }
+            "try_lock" if recv_field.as_deref() == Some("lock") => {
+                // a bin lock that may be taken without waiting is still a bin lock taken (read paths must not take any)
+                let a = self.ev("ev_lock", vec![], m, line);
+                let b = self.ev("ev_unlock", vec![], m, line);
+                out.push(Sk::If { cond: Cond::Nondet, then: vec![a, b], els: vec![], line });
+                return None;
             }
             "lock" if recv_field.as_deref() == Some("lock") => {
                 // a lock guard that is not bound to a named local is a temporary: taken and released again
